@@ -147,6 +147,29 @@ pub fn run_c05(tape: &[u8], cx: &Cx) -> Outcome {
             o.nontrivial = true;
             o.tag("semantically-empty-final-term");
         }
+        // the same questions about the derivatives of e, on the same (now warm) manager: each is an
+        // expression in its own right, and its language is the reference quotient
+        if slot == last {
+            let live = dfa.live_states();
+            let pairs = crate::bisim::reachable_pairs(&mut mgr, &prog.atoms, dfa, dfa.start, e, 24);
+            for (q, d) in pairs.into_iter().skip(1) {
+                o.evals += 2;
+                let dead = !live[q as usize];
+                let got = match catch(|| (mgr.is_empty_re(d), mgr.get_string(d).is_none())) {
+                    Ok(g) => g,
+                    Err(msg) => {
+                        o.fail("C05/is_empty_re-panics", format!("{}: emptiness test of the derivative {} panicked: {}", what, d, msg));
+                        return o;
+                    }
+                };
+                if got.0 != dead || got.1 != dead {
+                    let class = if dead { "C05/empty-language-reported-non-empty" } else { "C05/non-empty-language-reported-empty" };
+                    o.fail(class, format!("{}: for its derivative {} is_empty_re = {} and get_string is {} but that language is {}", what, d, got.0, if got.1 { "None" } else { "Some" }, if dead { "empty" } else { "not empty" }));
+                    return o;
+                }
+            }
+            o.tag("derivative-terms-queried");
+        }
     }
     if has_semantic_empty(&prog, &dfas, &terms) {
         o.tag("semantically-empty-subterm");
@@ -281,6 +304,30 @@ pub fn run_c19(tape: &[u8], cx: &Cx) -> Outcome {
     let last = prog.ins.len() - 1;
     let e = terms[last];
     let what = format!("r{} = {} (term {})", last, render_ins(&prog.ins[last]), e);
+    // a warm manager: earlier emptiness tests, start_char queries and abandoned enumerations on
+    // other slots of the same manager must not change what is enumerated for e
+    let npre = t.choose(4);
+    for _ in 0..npre {
+        let k = t.choose(prog.ins.len());
+        let x = terms[k];
+        if deriv_closure(&mut mgr, &prog.atoms, x, rx::CLOSURE_CAP).is_none() {
+            continue;
+        }
+        match t.choose(3) {
+            0 => {
+                let _ = catch(|| mgr.is_empty_re(x));
+            }
+            1 => {
+                let c = prog.atoms.pick_char(&mut t);
+                let _ = catch(|| mgr.start_char(x, c));
+            }
+            _ => {
+                let n = 1 + t.choose(3);
+                let _ = catch(|| mgr.iter_derivatives(x).take(n).count());
+            }
+        }
+        o.tag("warm-manager");
+    }
     // independent closure: BFS with char_derivative over class boundary characters
     let closure = match deriv_closure(&mut mgr, &prog.atoms, e, rx::CLOSURE_CAP) {
         Some(c) => c,
@@ -330,6 +377,13 @@ pub fn run_c19(tape: &[u8], cx: &Cx) -> Outcome {
     // try_compile bound
     let extra = t.u32_in(0, 2 * n as u32 + 4) as usize;
     let mut bounds: Vec<usize> = vec![0, 1, n.saturating_sub(1), n, n + 1, 2 * n, usize::MAX, extra];
+    // bounds around the word-size boundaries (a bound is a usize, not a u16/u32)
+    for sh in [8u32, 16, 31, 32, 33, 48, 63] {
+        if (sh as usize) < usize::BITS as usize {
+            let b = 1usize << sh;
+            bounds.extend([b, b + n.saturating_sub(1), b + n, b - 1]);
+        }
+    }
     bounds.dedup();
     for b in bounds {
         o.evals += 1;
